@@ -287,7 +287,7 @@ func main() {
 	if v := os.Getenv("VERIF_OUT"); v != "" {
 		outDir = v
 	}
-	if len(os.Args) < 3 && !(len(os.Args) == 2 && os.Args[1] == "warm") {
+	if len(os.Args) < 3 && !(len(os.Args) >= 2 && os.Args[1] == "warm") {
 		fmt.Fprintln(os.Stderr, "usage: vcheck run <Cxx> [--tier quick|thorough] | vcheck replay <file>")
 		os.Exit(2)
 	}
@@ -319,6 +319,22 @@ func main() {
 			}
 		case "warm":
 			buildWorker()
+			ov, _ := instrumentPackage(false)
+			w := buildWorkerOv("worker_sched", writeOverlay(ov))
+			ovd, _ := instrumentPackage(true)
+			buildWorkerOv("worker_dense", writeOverlay(ovd))
+			buildWorkerV()
+			racePass(nil, false, newHistResult("C12", "quick"))
+			if len(os.Args) > 2 {
+				// keep a copy of the instrumented worker for manual experiments
+				data, _ := os.ReadFile(w)
+				os.WriteFile(os.Args[2], data, 0755)
+				for _, f := range []string{"instr_lang.go", "instr_entropy.go", "zz_verif_sites_gen.go"} {
+					if d, err := os.ReadFile(filepath.Join(scratch, f)); err == nil {
+						os.WriteFile(os.Args[2]+"."+f, d, 0644)
+					}
+				}
+			}
 			code = 0
 		case "replay":
 			code = replay(os.Args[2])
@@ -360,3 +376,5 @@ func replay(path string) int {
 var specialReplay = map[string]func(path string) int{}
 
 func readFile(p string) ([]byte, error) { return os.ReadFile(p) }
+
+func jsonUnmarshal(data []byte, v interface{}) error { return json.Unmarshal(data, v) }
